@@ -163,9 +163,13 @@ def main():
         steps = []
         for op in case['ops']:
             r = {}
+            opnd = [slots[op[k_]] for k_ in ('a', 'b') if k_ in op] + [slots[i_] for i_ in op.get('xs', [])]
+            before = [json.dumps(dump(x_), sort_keys=True) if x_ is not None else None for x_ in opnd]
             try:
                 with np.errstate(all='ignore'):
                     y = do_op(op, slots)
+                r['operands_unchanged'] = before == [json.dumps(dump(x_), sort_keys=True) if x_ is not None else None
+                                                     for x_ in opnd]
                 r['status'] = 'Ok'
                 r['result'] = dump(y)
                 try:
@@ -346,25 +350,31 @@ def main():
         try:
             np.random.seed(int(case.get('npseed', 0)))
             sink = io.StringIO()
+            made = {}
+
+            def mkr(spec, _made=made):      # remember every input object built for this case
+                obj = mk(spec)
+                _made[id(obj)] = (obj, json.dumps(dump(obj), sort_keys=True))
+                return obj
             with contextlib.redirect_stdout(sink), np.errstate(all='ignore'):
                 if k == 'hosvd':
-                    X = mk(case['X'])
+                    X = mkr(case['X'])
                     H = T.hosvd(X)
                     r['Us'] = [dmat(U) for U in H.Us]
                     r['core'] = dfull(H.X)
                     r['dense'] = dfull(H.asarray())
                 elif k == 'orth':
-                    A = mk(case['A'])
+                    A = mkr(case['A'])
                     O = A.orthogonalize()
                     r['Us'] = [dmat(U) for U in O.Us]
                     r['core'] = dfull(O.X)
                     r['dense'] = dfull(O.asarray())
                     r['norm'] = float(A.norm())
                 elif k == 'norm':
-                    A = mk(case['A'])
+                    A = mkr(case['A'])
                     r['norm'] = float(T.fro_norm(A))
                 elif k == 'compress':
-                    A = mk(case['A'])
+                    A = mkr(case['A'])
                     kw = {}
                     if case.get('tol') is not None:
                         kw['tol'] = float(case['tol'])
@@ -375,10 +385,10 @@ def main():
                     r['Us'] = [dmat(U) for U in Cc.Us]
                     r['dense'] = dfull(Cc.asarray())
                 elif k == 'trunc_rank':
-                    X = mk(case['X'])
+                    X = mkr(case['X'])
                     r['shape'] = [int(n) for n in T.find_truncation_rank(X, float(case['tol']))]
                 elif k == 'aca':
-                    X = mk(case['X'])
+                    X = mkr(case['X'])
                     kw = dict(tol=float(case['tol']), maxiter=int(case['maxiter']), verbose=0)
                     if case.get('gen'):
                         Y = lowrank.aca(lowrank.TensorGenerator.from_array(X), **kw)
@@ -386,7 +396,7 @@ def main():
                         Y = lowrank.aca(X, **kw)
                     r['dense'] = dfull(Y)
                 elif k == 'aca_lr':
-                    X = mk(case['X'])
+                    X = mkr(case['X'])
                     cr = lowrank.aca_lr(X, tol=float(case['tol']), maxiter=int(case['maxiter']), verbose=0)
                     r['ncross'] = len(cr)
                     r['crosses'] = [[np.asarray(c, dtype=float).tolist(), np.asarray(rr, dtype=float).tolist()] for (c, rr) in cr]
@@ -395,7 +405,7 @@ def main():
                     else:
                         r['dense'] = dfull(np.zeros(X.shape))
                 elif k == 'aca3d':
-                    X = mk(case['X'])
+                    X = mkr(case['X'])
                     Y = lowrank.aca_3d(lowrank.TensorGenerator.from_array(X), tol=float(case['tol']),
                                        maxiter=int(case['maxiter']), verbose=0, lr=bool(case.get('lr')))
                     if case.get('lr'):
@@ -403,22 +413,22 @@ def main():
                         r['nterms'] = len(Y.Xs)
                     r['dense'] = dfull(T.asarray(Y))
                 elif k == 'als1':
-                    A = mk(case['A'])
+                    A = mkr(case['A'])
                     xs = T.als1(A)
                     r['dense'] = dfull(T.outer(*xs))
                 elif k == 'als':
-                    A = mk(case['A'])
+                    A = mkr(case['A'])
                     Y = T.als(A, int(case['R']), tol=float(case.get('tol', 1e-10)), maxiter=int(case.get('maxiter', 10000)))
                     r['R'] = int(Y.R)
                     r['dense'] = dfull(Y.asarray())
                 elif k == 'grou':
-                    A = mk(case['A'])
+                    A = mkr(case['A'])
                     Y, errs = T.grou(A, int(case['R']), tol=float(case['tol']), return_errors=True)
                     r['R'] = int(Y.R)
                     r['errors'] = [float(e) for e in errs]
                     r['dense'] = dfull(Y.asarray())
                 elif k == 'gta':
-                    A = mk(case['A'])
+                    A = mkr(case['A'])
                     Y, errs = T.gta(A, int(case['R']), tol=float(case['tol']), rtol=float(case['rtol']), return_errors=True)
                     r['R'] = [int(n) for n in Y.R]
                     r['Us'] = [dmat(U) for U in Y.Us]
@@ -426,6 +436,7 @@ def main():
                     r['dense'] = dfull(Y.asarray())
                 else:
                     raise ValueError(k)
+            r['input_unchanged'] = all(json.dumps(dump(obj), sort_keys=True) == snap for (obj, snap) in made.values())
             r['status'] = 'Ok'
         except Exception as e:  # noqa
             r['status'] = errclass(e)
